@@ -570,6 +570,14 @@ func e1Run(r *fw.Run, progs []*Prog, o e1Opts) {
 			valid = append(valid, p)
 		}
 	}
+	for _, p := range rejected {
+		msg := p.GateErr
+		if i := strings.Index(msg, ": "); i >= 0 {
+			msg = msg[i+2:]
+		}
+		msg = regexp.MustCompile(`[0-9]+`).ReplaceAllString(msg, "N")
+		r.Cover("gate_reject_reason", fw.Clip(msg, 60))
+	}
 	r.Count("gate_valid", int64(len(valid)))
 	r.Count("gate_rejected", int64(len(rejected)))
 	tGate := time.Since(t0)
